@@ -48,8 +48,16 @@ func elemField(v ssa.Value, name string) (ssa.Value, bool) {
 }
 
 func isFreshElem(v ssa.Value) bool {
-	al, ok := v.(*ssa.Alloc)
-	return ok && al.Heap
+	if al, ok := v.(*ssa.Alloc); ok {
+		return al.Heap
+	}
+	// an element a helper of the cache built and returned (read-through): as fresh as one built here
+	switch v.(type) {
+	case *ssa.Call, *ssa.Extract:
+		_, fresh := ssax.Path(v)
+		return fresh
+	}
+	return false
 }
 
 func ItemFlags(w *load.World, c *core.Collector) {
